@@ -156,3 +156,193 @@ Proof.
   pose proof (deliver_tx_CI c tx HCI) as H1. destruct (deliver_tx c tx) as [c1 o]. cbn in H1.
   specialize (IH c1 H1). destruct (deliver_txs c1 txs) as [c2 os]. exact IH.
 Qed.
+
+(* ---- BeginBlock: x/slashing's signature handling ---- *)
+Lemma jail_same_ids s k s' : jail s k = Some s' -> same_ids_cons s s'.
+Proof.
+  unfold jail. destruct (by_cons s !! k) as [id|]; [|discriminate]. destruct (vals s !! id) as [v|] eqn:Hv; [|discriminate].
+  destruct (v_jailed v); [discriminate|]. intros [= <-]. eapply same_ids_cons_insert; [exact Hv| |]. 2:{ unfold del_index, set_validator. cbn. reflexivity. } reflexivity.
+Qed.
+
+Lemma slash_CI c k p f c' : CI c -> slash c k p f = Some c' -> CI c'.
+Proof.
+  intros [HS HP] H. split; [eapply slash_SI; eauto|]. eapply PI_transfer; [exact HP| |eapply slash_same_ids; eauto].
+  apply slash_frame in H as (_ & Hp & _). rewrite Hp. reflexivity.
+Qed.
+
+Lemma handle_signature_CI c k p sg c' : CI c -> handle_signature c k p sg = Some c' -> CI c'.
+Proof.
+  intros HCI. unfold handle_signature. destruct (by_cons (stk c) !! k) as [id|]; [|discriminate].
+  destruct (vals (stk c) !! id) as [v|]; [|discriminate]. destruct (v_jailed v); [intros [= <-]; exact HCI|].
+  destruct (infos (sl c) !! k) as [i|]; [|discriminate].
+  destruct (if negb _ && negb sg then _ else _) as [bm' cnt].
+  destruct (_ && _).
+  - destruct (slash c k p _) as [c1|] eqn:Es; [|discriminate]. destruct (jail (stk c1) k) as [s2|] eqn:Ej; [|discriminate].
+    intros [= <-]. apply CI_sl. pose proof (slash_CI _ _ _ _ _ HCI Es) as [HS1 HP1]. split.
+    + cbn. eapply jail_SI; eauto.
+    + eapply PI_transfer; [exact HP1|reflexivity|cbn; eapply jail_same_ids; eauto].
+  - intros [= <-]. apply CI_sl. exact HCI.
+Qed.
+
+Lemma handle_votes_CI votes absent c c' : CI c -> handle_votes votes absent c = Some c' -> CI c'.
+Proof.
+  revert c. induction votes as [|[k p] vs IH]; cbn; intros c HCI; [intros [= <-]; exact HCI|].
+  destruct (handle_signature c k p _) as [c1|] eqn:E; [|discriminate]. apply IH. eapply handle_signature_CI; eauto.
+Qed.
+
+Lemma poa_begin_block_CI c : CI c -> CI (poa_begin_block c).
+Proof.
+  intros [HS [A B C D]]. unfold poa_begin_block. destruct (1 <? height c); [|split; [exact HS|constructor; auto]].
+  split; [exact HS|constructor; auto].
+Qed.
+
+Lemma begin_block_CI c votes absent c' : CI c -> begin_block c votes absent = inl c' -> CI c'.
+Proof.
+  intros HCI. unfold begin_block. destruct (_ && _); [discriminate|].
+  destruct (handle_votes votes absent c) as [c1|] eqn:E; [|discriminate]. intros [= <-].
+  apply poa_begin_block_CI. eapply handle_votes_CI; eauto.
+Qed.
+
+(* ---- EndBlocker: state transitions keep CI ---- *)
+Lemma bond_validator_CI c id v : CI c -> vals (stk c) !! id = Some v -> CI (fst (bond_validator c id v)).
+Proof.
+  intros [HS HP] Hv. unfold bond_validator. cbn.
+  set (v' := set_status v Bonded).
+  assert (Hr : SI (rekey (stk c) id v v')) by (apply SI_rekey; auto; cbn; eapply si_tok; eauto).
+  split.
+  - cbn. eapply SI_ext; [| | | |exact Hr]; unfold rekey, set_index, set_validator, del_index; cbn; destruct (v_jailed v); reflexivity.
+  - eapply PI_transfer; [exact HP|reflexivity|]. cbn. eapply same_ids_cons_insert; [exact Hv| |]. 2:{ unfold set_index, set_validator, del_index. cbn. destruct (v_jailed v); reflexivity. } reflexivity.
+Qed.
+
+Lemma apply_loop_CI keys maxv a a' :
+  CI (la_chain a) -> apply_loop keys maxv a = LDone a' -> CI (la_chain a').
+Proof.
+  revert a. induction keys as [|[p id] ks IH]; intros a HCI; cbn [apply_loop]; [intros [= <-]; exact HCI|].
+  destruct (maxv <=? la_count a); [intros [= <-]; exact HCI|].
+  destruct (vals (stk (la_chain a)) !! id) as [v|] eqn:Hv; [|discriminate].
+  destruct (v_jailed v); [apply IH; exact HCI|].
+  destruct (v_power v =? 0); [intros [= <-]; exact HCI|].
+  set (r := match v_status v with Bonded => (la_chain a, v, 0) | _ => let '(c', v') := bond_validator (la_chain a) id v in (c', v', v_tokens v') end).
+  assert (Hr : exists c1 v1 moved, r = (c1, v1, moved) /\ CI c1 /\ vals (stk c1) !! id = Some v1 /\ v_status v1 = Bonded).
+  { subst r. pose proof (bond_validator_CI _ id v HCI Hv) as Hb. pose proof (bond_validator_vals (la_chain a) id v) as (H1 & H2 & _).
+    destruct (v_status v) eqn:Es.
+    - destruct (bond_validator (la_chain a) id v) as [c' v'']. cbn in *. subst v''. do 3 eexists. split; [reflexivity|]. split; [exact Hb|]. rewrite H1, lookup_insert. auto.
+    - destruct (bond_validator (la_chain a) id v) as [c' v'']. cbn in *. subst v''. do 3 eexists. split; [reflexivity|]. split; [exact Hb|]. rewrite H1, lookup_insert. auto.
+    - do 3 eexists. split; [reflexivity|]. auto. }
+  destruct Hr as (c1 & v1 & moved & -> & HCI1 & Hv1 & Hs1). cbn zeta.
+  apply IH. cbn [la_chain].
+  destruct (match la_last a !! id with Some old => negb (old =? v_power v1) | None => true end); [|exact HCI1].
+  destruct HCI1 as [[S1 S2 S3 S4 S5 S6] [P1 P2 P3 P4]]. split; [constructor; auto|constructor; auto].
+  intros i q. cbn. destruct (decide (i = id)) as [->|Hne]; [intros _; eauto|]. rewrite lookup_insert_ne by auto. apply S4.
+Qed.
+
+Lemma unbond_loop_CI ids a a' :
+  CI (la_chain a) -> unbond_loop ids a = LDone a' -> CI (la_chain a').
+Proof.
+  revert a. induction ids as [|id rest IH]; intros a HCI; cbn [unbond_loop]; [intros [= <-]; exact HCI|].
+  destruct (vals (stk (la_chain a)) !! id) as [v|] eqn:Hv; [|discriminate].
+  destruct (negb (status_eqb (v_status v) Bonded)); [discriminate|].
+  destruct (begin_unbonding (la_chain a) id v) as [c1 v1] eqn:Eb. apply IH. cbn [la_chain].
+  (* the step: re-key to the unbonding record and drop the validator from the last set *)
+  destruct HCI as [HS HP].
+  set (v' := set_unbonding v (height (la_chain a)) (now (la_chain a) + sp_unbonding_time (params (stk (la_chain a))) / 1000000000)).
+  assert (Hc1 : vals (stk c1) = <[id := v']> (vals (stk (la_chain a))) /\ pidx (stk c1) = pidx (rekey (stk (la_chain a)) id v v') /\
+                last_pow (stk c1) = last_pow (stk (la_chain a)) /\ by_cons (stk c1) = by_cons (stk (la_chain a)) /\ poa c1 = poa (la_chain a)).
+  { unfold begin_unbonding in Eb. inversion Eb; subst. cbn. unfold rekey, set_index, set_validator, del_index. cbn. destruct (v_jailed v); repeat split. }
+  destruct Hc1 as (Hvals & Hpidx & Hlp & Hbc & Hpoa).
+  destruct (rekey_sound (stk (la_chain a)) id v v' (si_sound _ HS) (si_unique _ HS) Hv) as [Hs' Hu'].
+  set (s1 := st_last_pow (stk c1) (delete id (last_pow (stk c1)))).
+  assert (E1 : vals s1 = <[id := v']> (vals (stk (la_chain a)))) by exact Hvals.
+  assert (E2 : pidx s1 = pidx (rekey (stk (la_chain a)) id v v')) by exact Hpidx.
+  assert (E3 : last_pow s1 = delete id (last_pow (stk (la_chain a)))) by (unfold s1; cbn; rewrite Hlp; reflexivity).
+  assert (E4 : by_cons s1 = by_cons (stk (la_chain a))) by exact Hbc.
+  change (CI (with_stk c1 s1)). split.
+  - change (SI s1). constructor.
+    + intros p i Hin. rewrite E2 in Hin. rewrite E1. rewrite <- (rekey_vals _ id v v'). apply Hs'; exact Hin.
+    + unfold idx_unique. rewrite E2. exact Hu'.
+    + eapply cons_inj_insert with (s := stk (la_chain a)) (v := v) (v' := v'); [apply HS|exact Hv|reflexivity|exact E1].
+    + intros i q. rewrite E3. intros Hl. apply lookup_delete_Some in Hl as [Hne Hl].
+      destruct (si_last _ HS i q Hl) as (vi & Hvi & Hsi). exists vi. rewrite E1, lookup_insert_ne by auto. auto.
+    + eapply tokens_nonneg_insert with (s := stk (la_chain a)) (v' := v'); [apply HS| |exact E1]. cbn. eapply si_tok; eauto.
+    + intros i vi. rewrite E1, E4. destruct (decide (i = id)) as [->|Hne].
+      * rewrite lookup_insert. intros [= <-]. cbn. apply (si_bycons _ HS); exact Hv.
+      * rewrite lookup_insert_ne by auto. apply (si_bycons _ HS).
+  - eapply PI_transfer; [exact HP|cbn; rewrite Hpoa; reflexivity|]. cbn. eapply same_ids_cons_insert; [exact Hv| |exact E1]. reflexivity.
+Qed.
+
+Lemma apply_valset_updates_CI c c' upd : CI c -> apply_valset_updates c = EBOk c' upd -> CI c'.
+Proof.
+  intros HCI. unfold apply_valset_updates.
+  destruct (apply_loop _ _ _) as [a1|] eqn:E1; [|discriminate].
+  destruct (unbond_loop _ a1) as [a2|] eqn:E2; [|discriminate].
+  assert (H1 : CI (la_chain a1)) by (eapply apply_loop_CI; [|exact E1]; exact HCI).
+  pose proof (unbond_loop_CI _ _ _ H1 E2) as H2.
+  destruct (if la_to_bonded a2 =? 0 then _ else _) as [b|]; [|discriminate]. intros [= <- _].
+  assert (H3 : CI (with_bk (la_chain a2) b)) by (apply CI_bk; exact H2).
+  destruct (la_upd a2); [exact H3|]. destruct H3 as [[S1 S2 S3 S4 S5 S6] [P1 P2 P3 P4]]. split; constructor; auto.
+Qed.
+
+(* ---- UnbondAllMatureValidators ---- *)
+Lemma mature_ids_CI ids c c' : CI c -> mature_ids ids c = Some c' -> CI c'.
+Proof.
+  revert c. induction ids as [|id rest IH]; cbn [mature_ids]; intros c HCI; [intros [= <-]; exact HCI|].
+  destruct (vals (stk c) !! id) as [v|] eqn:Hv; [|discriminate].
+  destruct (status_eqb (v_status v) Unbonding) eqn:Est; cbn [negb]; [|discriminate].
+  set (v' := set_status v Unbonded).
+  set (s1 := set_validator (stk c) id v').
+  destruct HCI as [HS HP].
+  assert (Hnotlast : last_pow (stk c) !! id = None).
+  { destruct (last_pow (stk c) !! id) as [q|] eqn:El; [|reflexivity]. destruct (si_last _ HS id q El) as (vi & Hvi & Hsi).
+    rewrite Hv in Hvi. inversion Hvi; subst. rewrite Hsi in Est. discriminate. }
+  assert (HS1 : SI s1).
+  { constructor.
+    - intros p i Hin. unfold s1, set_validator. cbn. destruct (decide (i = id)) as [->|Hne].
+      + rewrite lookup_insert. destruct (si_sound _ HS p id Hin) as (v0 & Hv0 & Hj & Hp). rewrite Hv in Hv0. inversion Hv0; subst. exists v'. auto.
+      + rewrite lookup_insert_ne by auto. apply (si_sound _ HS); exact Hin.
+    - exact (si_unique _ HS).
+    - eapply cons_inj_insert with (v := v) (v' := v'); [apply HS|exact Hv|reflexivity|reflexivity].
+    - intros i q Hl. unfold s1, set_validator in Hl. cbn in Hl. destruct (si_last _ HS i q Hl) as (vi & Hvi & Hsi).
+      assert (i <> id) by (intros ->; congruence). exists vi. unfold s1, set_validator. cbn. rewrite lookup_insert_ne by auto. auto.
+    - eapply tokens_nonneg_insert with (v' := v'); [apply HS| |reflexivity]. cbn. eapply si_tok; eauto.
+    - intros i vi. unfold s1, set_validator. cbn. destruct (decide (i = id)) as [->|Hne].
+      + rewrite lookup_insert. intros [= <-]. cbn. apply (si_bycons _ HS); exact Hv.
+      + rewrite lookup_insert_ne by auto. apply (si_bycons _ HS). }
+  assert (HP1 : PI (with_stk c s1)).
+  { eapply PI_transfer; [exact HP|reflexivity|]. cbn. eapply same_ids_cons_insert; [exact Hv| |reflexivity]. reflexivity. }
+  destruct (v_shares v' =? 0).
+  - destruct (0 <? v_tokens v'); [discriminate|]. cbn zeta.
+    set (s2 := st_pidx (st_by_cons (st_vals s1 (delete id (vals s1))) (delete (v_cons v') (by_cons s1))) (pidx_del (v_power v', id) (pidx s1))).
+    apply IH.
+    assert (Hv1 : vals s1 !! id = Some v') by (unfold s1, set_validator; cbn; apply lookup_insert).
+    split.
+    + cbn. constructor.
+      * intros p i Hin. cbn in Hin. apply in_pidx_del in Hin as [Hin Hne]. cbn.
+        destruct (decide (i = id)) as [->|Hni]; [exfalso; apply Hne; f_equal; eapply owned_key; [apply HS1|exact Hv1|exact Hin]|].
+        rewrite lookup_delete_ne by auto. apply (si_sound _ HS1); exact Hin.
+      * unfold idx_unique. cbn. apply pidx_del_nodup. apply (si_unique _ HS1).
+      * intros i j vi vj. cbn. intros Hi Hj. apply lookup_delete_Some in Hi as [_ Hi]. apply lookup_delete_Some in Hj as [_ Hj]. eapply (si_cons _ HS1); eauto.
+      * intros i q. cbn. intros Hl. destruct (si_last _ HS1 i q Hl) as (vi & Hvi & Hsi).
+        assert (i <> id) by (intros ->; unfold s1, set_validator in Hl; cbn in Hl; congruence). exists vi. rewrite lookup_delete_ne by auto. auto.
+      * intros i vi. cbn. intros Hi. apply lookup_delete_Some in Hi as [_ Hi]. eapply (si_tok _ HS1); eauto.
+      * intros i vi. cbn. intros Hi. apply lookup_delete_Some in Hi as [Hne Hi].
+        rewrite lookup_delete_ne; [apply (si_bycons _ HS1); exact Hi|].
+        intros Heq. apply Hne. symmetry. eapply (si_cons _ HS1); [exact Hi|exact Hv1|]. cbn. cbn in Heq. congruence.
+    + destruct HP1 as [A B C D]. constructor; cbn; auto.
+      * intros p Hin. destruct (decide (p_oper p = id)) as [->|Hne]; [apply lookup_delete|]. rewrite lookup_delete_ne by auto. apply C; exact Hin.
+      * intros p i vi Hin Hi. apply lookup_delete_Some in Hi as [_ Hi]. eapply D; eauto.
+  - cbn zeta. apply IH. split; [eapply SI_ext; [| | | |exact HS1]; reflexivity|]. destruct HP1 as [A B C D]. constructor; auto.
+Qed.
+
+Lemma mature_slots_CI slots c c' : CI c -> mature_slots slots c = Some c' -> CI c'.
+Proof.
+  revert c. induction slots as [|[[t h] ids] rest IH]; cbn [mature_slots]; intros c HCI; [intros [= <-]; exact HCI|].
+  destruct (_ && _); [|apply IH; exact HCI].
+  destruct (mature_ids ids c) as [c1|] eqn:E; [|discriminate]. apply IH. eapply mature_ids_CI; eauto.
+Qed.
+
+Lemma staking_end_block_CI c c' upd : CI c -> staking_end_block c = EBOk c' upd -> CI c'.
+Proof.
+  intros HCI. unfold staking_end_block. destruct (apply_valset_updates c) as [c1 u|] eqn:E1; [|discriminate].
+  destruct (unbond_all_mature c1) as [c2|] eqn:E2; [|discriminate]. intros [= <- _].
+  unfold unbond_all_mature in E2. eapply mature_slots_CI; [|exact E2]. eapply apply_valset_updates_CI; eauto.
+Qed.
